@@ -1,8 +1,9 @@
 /-
 C08 — Machine holds ≤ work_capacity items, each for exactly its processing delay.
-(Machine automaton; Splitter / Combiner not yet modelled.)
+(Machine automaton.  Combiner and Splitter have work_capacity 1 by construction; their automata are in Model/Node/Pack.lean.)
 -/
 import FsVerif.Proofs.Machine
+import FsVerif.Props.C09
 namespace FsVerif.Props.C08
 open FsVerif MacState
 
@@ -31,5 +32,11 @@ theorem machine_one_draw_per_item (cfg : MacCfg) (acts : List Act) :
 theorem worker_waits_its_delay (s : MacState) (i : Nat) (w : Worker) (t : Nat) (a : Ans) (h : w.pc = .start) :
     (s.worker i w t a).2 = [.wait w.delay] := by
   unfold worker; simp [h]
+
+/-! ### non-vacuity on a RECORDED run of the real Machine (Props/C09.demoBlocking, work_capacity 1, processing delay 1): three
+items pulled, one delay drawn per item, one worker per item, never more than one item inside -/
+
+example : let s := runActs (init { wc := 1, blocking := true }) C09.demoBlocking
+    s.pulled = [1, 2, 3] ∧ s.pds = [1, 1, 1] ∧ s.workers.length = 3 ∧ s.held.length ≤ 1 ∧ s.users ≤ 1 := by decide +kernel
 
 end FsVerif.Props.C08
